@@ -238,7 +238,9 @@ def search(ctx):
                 if far:
                     f3 = _flat_field(calc_field(det, sc, illum_polarization=pol, theory=Mie(False, False), **OPT))
                     f4 = _flat_field(calc_field(det, sc, illum_polarization=pol, theory=Mie(False, True), **OPT))
-                    if not (float(np.abs(f3 - f4).max() / np.abs(f3).max()) <= 5.0 / (kwave * z)):
+                    # the asymptotic Hankel form needs k z >> n^2 ~ x^2: measured deviation ~ 0.33 x^2 / (k z) (+ O(1/kz) for small x)
+                    thr = (5.0 + x * x) / (kwave * z)
+                    if thr < 0.2 and not (float(np.abs(f3 - f4).max() / np.abs(f3).max()) <= thr):
                         ctx.violation("C02:radial-dependence", "asymptotic and full radial dependence disagree in the far field", dict(kind="fields", m=cx(m), x=x, z=z))
             else:
                 # layered-sphere reductions through the public calculation
